@@ -497,7 +497,18 @@ def to_str(ex, st, v):
             return v
         if v.sort() == I:
             used(ex, "str(int) = SMT str.from_int for n >= 0, '-' ++ from_int(-n) otherwise")
-            return z3.If(v >= 0, z3.IntToStr(v), z3.Concat(z3.StringVal("-"), z3.IntToStr(-v)))
+            if ABSTRACT_CAT[0]:
+                # abstract-text mode: the decimal text of an int is an uninterpreted function of the int
+                r = ex.ctx.uf("istr", I, S)(v)
+            else:
+                r = z3.If(v >= 0, z3.IntToStr(v), z3.Concat(z3.StringVal("-"), z3.IntToStr(-v)))
+            ex.ctx.__dict__.setdefault("int_strs", {})[r.get_id()] = (r, v)
+            return r
+        if v.sort() == R:
+            used(ex, "str(float) / f'{float}': an uninterpreted function fstr of the real value (its digits are not modelled)")
+            return ex.ctx.uf("fstr", R, S)(v)
+    if isinstance(v, float) and v == v and abs(v) != float("inf"):
+        return repr(v)
     raise Unsupported("str() of %r" % (v,))
 
 
@@ -513,7 +524,41 @@ def str_concat(items):
     out = [to_z3(x) for x in out if not (isinstance(x, str) and x == "")]
     if len(out) == 1:
         return out[0]
+    if ABSTRACT_CAT[0]:
+        # concatenation as an uninterpreted function of its flattened parts (a sound weakening of the string theory:
+        # equal parts in equal order give equal text; nothing else is known).  Keeps text-building obligations in EUF.
+        return _abstract_cat(out, 0)
     return z3.Concat(*out)
+
+
+def _abstract_cat(parts, depth):
+    flat = []
+    for x in parts:
+        if z3.is_app(x) and x.decl().name().startswith("cat!"):
+            flat += list(x.children())
+        else:
+            flat.append(x)
+    # a part that is a choice between literal texts (or between already-built texts) is lifted outward, so that
+    # literal neighbours can be joined:  "<" ++ ite(c, "DEL", "DUP") ++ ">"  =  ite(c, "<DEL>", "<DUP>")
+    if depth < 6:
+        for i, x in enumerate(flat):
+            if z3.is_app_of(x, z3.Z3_OP_ITE) and x.sort() == S:
+                c, a, b = x.children()
+                return z3.If(c, _abstract_cat(flat[:i] + [a] + flat[i + 1:], depth + 1),
+                             _abstract_cat(flat[:i] + [b] + flat[i + 1:], depth + 1))
+    merged = []
+    for x in flat:
+        if merged and z3.is_string_value(x) and z3.is_string_value(merged[-1]):
+            merged[-1] = z3.StringVal(merged[-1].as_string() + x.as_string())
+        else:
+            merged.append(x)
+    if len(merged) == 1:
+        return merged[0]
+    f = z3.Function("cat!%d" % len(merged), *([S] * len(merged) + [S]))
+    return f(*merged)
+
+
+ABSTRACT_CAT = [False]
 
 
 def str_percent(ex, st, fmt, args):
@@ -1551,3 +1596,9 @@ def front_load(rel):
 
 from .lib_np import *      # noqa  (numpy / pandas models)
 from .lib_obj import *     # noqa  (repository classes, with/try, comprehensions)
+
+
+@builtin("fstr")
+def sp_fstr(ex, st, args, kwargs, node):
+    """fstr(x): the text Python prints for the float x (spec language; uninterpreted)"""
+    return to_str(ex, st, to_real(st.get(args[0])))
